@@ -2414,3 +2414,49 @@ def np_linalg_cholesky(A):
 
 
 NP._table['linalg']._table.update({'cholesky': np_linalg_cholesky, 'LinAlgError': LinAlgErrorCls})
+
+
+# ------------------------------------------------------------------------------------------------
+# plotly (assumed contract: one trace per distinct value of the `color` column, holding exactly the rows with that
+# value, in order, at the requested x/y[/z] columns)
+# ------------------------------------------------------------------------------------------------
+
+class FigObj(object):
+    def __init__(self, kind, info):
+        self.kind, self.info = kind, info
+
+    def sym_getattr(self, interp, name):
+        if name in ('update_layout', 'update_traces', 'show', 'update_xaxes', 'update_yaxes'):
+            return lambda *a, **k: self
+        if name == 'data':
+            from .interp import PyList
+            return PyList([Opaque('trace', None, x=None, y=None) for _ in range(4)])
+        raise Unsupported('Figure.' + name)
+
+
+def _px(kind):
+    def f(data_frame=None, x=None, y=None, z=None, color=None, color_discrete_map=None, symbol=None, **kw):
+        USED['plotly.express.' + kind] = ('px.%s(df, x, y[, z], color=c): REQUIRES the named columns to exist in df; the figure '
+                                          'has one trace per distinct value of column c with exactly the rows of df having '
+                                          'that value, in order' % kind)
+        info = {'frame': data_frame, 'x': x, 'y': y, 'z': z, 'color': color, 'symbol': symbol,
+                'color_map': color_discrete_map}
+        labels = getattr(data_frame, 'labels', None)
+        if labels is not None:
+            for nm in (x, y, z, color):
+                if nm is not None and nm not in labels:
+                    _raise('ValueError', "Value of '%s' is not the name of a column in 'data_frame'" % (nm,))
+        State.ctx.event('plot', dict(info, kind=kind), State.where)
+        return FigObj(kind, info)
+    return f
+
+
+def _ff_distplot(hist_data=None, group_labels=None, **kw):
+    USED['plotly.figure_factory.create_distplot'] = 'create_distplot(hist_data, group_labels): one density trace per data set'
+    State.ctx.event('plot', {'kind': 'distplot', 'data': hist_data, 'labels': group_labels}, State.where)
+    return FigObj('distplot', {'data': hist_data})
+
+
+EXTERNAL['plotly'] = Stub('plotly', {})
+EXTERNAL['plotly.express'] = Stub('plotly.express', {'scatter': _px('scatter'), 'scatter_3d': _px('scatter_3d')})
+EXTERNAL['plotly.figure_factory'] = Stub('plotly.figure_factory', {'create_distplot': _ff_distplot})
